@@ -118,9 +118,9 @@ def rand_tf(r, kind):
 
 FACTORS = {
     "sub": ["tum", "tum", "kitti", "euroc"], "ntraj": [1, 2, 3], "ref": ["none", "file", "listed"],
-    "downsample": [None, 5, 200], "motion_filter": [None, [0.7, 20.0], [0.0, 400.0]], "merge": [False, True],
+    "downsample": [None, 5, 200, 0], "motion_filter": [None, [0.7, 20.0], [0.0, 400.0]], "merge": [False, True],
     "t_offset": [0.0, 0.25, -0.5], "sync": [False, True], "align": [False, True], "correct_scale": [False, True],
-    "n_to_align": [-1, 6], "align_origin": [False, True], "tf_side": [None, "left", "right", "both"],
+    "n_to_align": [-1, 6, 2], "align_origin": [False, True], "tf_side": [None, "left", "right", "both"],
     "tf_form": ["npy", "txt", "json"], "tf_kind": ["se3", "sim3"], "invert": [False, True], "propagate": [False, True],
     "plane": [None, "xy", "xz", "yz"], "save": ["tum", "kitti", "both"], "t_max_diff": [0.01, 0.05],
 }
@@ -196,7 +196,7 @@ def merge_shift(ties, k, n):
 
 def build_case(r, o):
     sub = o["sub"]
-    n = r.randint(8, 30)
+    n = r.choice([2, 3, 4, 7, 8, 9, 15, 16, 17, 1] + [r.randint(8, 30) for _ in range(8)])
     base = gen_base(r, n)
     trajs = []
     ties = o.get("ties_force") or tie_kind(r, o)
@@ -303,7 +303,42 @@ def sample_grid_opts(r):
     return o
 
 
+def add_drive(r, case, p=0.6):
+    """how the CLI is driven (lessons L2, L7-L11): path spellings, adversarial file names, argument order, a file listed twice,
+    a primer run in the same process and directory (other options, other content under the same paths), stale outputs that
+    must be overwritten (--no_warnings), exponent notation, an explicit zero offset"""
+    if r.random() > p:
+        return case
+    n = len(case["trajs"])
+    d = {"spell": r.choice(["plain", "dot", "abs", "updir"]), "spell_ref": r.choice(["plain", "dot", "abs", "updir"]),
+         "spell_tf": r.choice(["plain", "dot", "abs", "updir"]),
+         "names": r.sample(ADVERSARIAL_STEMS, n) if r.random() < 0.5 else None,
+         "order": "reversed" if r.random() < 0.4 else None, "dup": r.random() < 0.2 and n > 0,
+         "primer": r.random() < 0.35, "stale": r.random() < 0.3, "num": r.choice(["repr", "exp"]),
+         "explicit_zero": r.random() < 0.3}
+    case["drive"] = d
+    return case
+
+
+def drive_of(case):
+    return case.get("drive") or {}
+
+
+def file_order(case):
+    ks = list(range(len(case["trajs"])))
+    return ks[::-1] if drive_of(case).get("order") == "reversed" else ks
+
+
+def spelled(name, how, d):
+    return {"plain": name, "dot": "./" + name, "abs": os.path.join(d, name), "updir": "data/../" + name}[how or "plain"]
+
+
 def gen_cases(ctx):
+    for i, c in enumerate(gen_cases_(ctx)):
+        yield c if i < 15 else add_drive(ctx.rng, c)        # the first 15 are the fixed corpus
+
+
+def gen_cases_(ctx):
     r = ctx.rng
     # corpus: no processing option; F6 (inverted Sim(3) of scale 2); reference untouched by offset
     base = dict(sample_opts(r, True), sub="tum", ntraj=1, ref="none", downsample=None, motion_filter=None, merge=False, t_offset=0.0,
@@ -345,7 +380,20 @@ def fmt(x):
     return repr(float(x))
 
 
+CUR = [None]      # the case being driven: adversarial file names are part of the case
+
+
+def use(case):
+    CUR[0] = case
+
+
+ADVERSARIAL_STEMS = ["traj0", "a b", "1e3", "b.tum", "tr\u00e1j", "data.kitti", "x", "merged_trajectory", "ref erence", "T.RAJ1"]
+
+
 def traj_name(sub, k):
+    names = ((CUR[0] or {}).get("drive") or {}).get("names")
+    if names:
+        return names[k] + (".csv" if sub == "euroc" else ".txt")
     return {"tum": f"traj{k}.txt", "kitti": f"poses{k}.txt", "euroc": f"state{k}.csv"}[sub]
 
 
@@ -391,9 +439,19 @@ def write_tf(path, tf, form):
         np.savetxt(path, tf_matrix(tf))
 
 
-def setup_dir(case):
-    d = tempfile.mkdtemp(prefix="evo_c15_")
+STALE = b"STALE OUTPUT - must be overwritten\n"
+
+
+def setup_dir(case, d=None):
+    d = d or tempfile.mkdtemp(prefix="evo_c15_")
+    os.makedirs(os.path.join(d, "data"), exist_ok=True)
     sub = case["sub"]
+    if drive_of(case).get("stale"):
+        stems = [os.path.splitext(traj_name(sub, k))[0] for k in range(len(case["trajs"]))] + ["merged_trajectory", os.path.splitext(ref_name(sub))[0]]
+        for stem in stems:
+            for ext in (".tum", ".kitti"):
+                with open(os.path.join(d, stem + ext), "wb") as f:
+                    f.write(STALE)
     for k, tr in enumerate(case["trajs"]):
         write_traj(os.path.join(d, traj_name(sub, k)), sub, tr)
     if case["ref"] is not None:
@@ -410,21 +468,29 @@ def setup_dir(case):
     return d
 
 
-def argv_of(case):
+def argv_of(case, d="."):
     sub = case["sub"]
-    a = [sub] + [traj_name(sub, k) for k in range(len(case["trajs"]))]
+    dr = drive_of(case)
+    num = (lambda x: "%.17e" % float(x)) if dr.get("num") == "exp" else fmt
+    files = [spelled(traj_name(sub, k), dr.get("spell"), d) for k in file_order(case)]
+    if dr.get("dup") and files:
+        files.append(files[0])
+    a = [sub] + files
+    refspell = spelled(ref_name(sub), dr.get("spell_ref"), d)      # the reference is recognised among the inputs by its spelling
     if case["ref_listed"]:
-        a.append(ref_name(sub))
+        a.append(refspell)
     if case["ref"] is not None:
-        a += ["--ref", ref_name(sub)]
+        a += ["--ref", refspell]
     if case["downsample"] is not None:
         a += ["--downsample", str(case["downsample"])]
     if case["motion_filter"] is not None:
-        a += ["--motion_filter", fmt(case["motion_filter"][0]), fmt(case["motion_filter"][1])]
+        a += ["--motion_filter", num(case["motion_filter"][0]), num(case["motion_filter"][1])]
     if case["merge"]:
         a.append("--merge")
     if case["t_offset"] != 0.0:
-        a += [f"--t_offset={fmt(case['t_offset'])}"]
+        a += [f"--t_offset={num(case['t_offset'])}"]
+    elif dr.get("explicit_zero"):
+        a += ["--t_offset=0.0"]
     for k, flag in (("sync", "--sync"), ("align", "--align"), ("correct_scale", "--correct_scale"), ("align_origin", "--align_origin"),
                     ("invert", "--invert_transform"), ("propagate", "--propagate_transform"), ("save_tum", "--save_as_tum"),
                     ("save_kitti", "--save_as_kitti")):
@@ -432,15 +498,17 @@ def argv_of(case):
             a.append(flag)
     if case["n_to_align"] != -1:
         a += ["--n_to_align", str(case["n_to_align"])]
-    a += ["--t_max_diff", fmt(case["t_max_diff"])]
+    a += ["--t_max_diff", num(case["t_max_diff"])]
     tf = case["tf"]
     if tf:
         if tf["side"] in ("left", "both"):
-            a += ["--transform_left", "tf_left." + tf["form"]]
+            a += ["--transform_left", spelled("tf_left." + tf["form"], dr.get("spell_tf"), d)]
         if tf["side"] in ("right", "both"):
-            a += ["--transform_right", "tf_right." + tf["form"]]
+            a += ["--transform_right", spelled("tf_right." + tf["form"], dr.get("spell_tf"), d)]
     if case["plane"]:
         a += ["--project_to_plane", case["plane"]]
+    if dr.get("stale"):
+        a.append("--no_warnings")
     return a + ["--silent"]
 
 
@@ -449,26 +517,67 @@ def outputs(d):
     for f in sorted(os.listdir(d)):
         if f.endswith(".tum") or f.endswith(".kitti"):
             with open(os.path.join(d, f), "rb") as h:
-                out[f] = h.read()
+                data = h.read()
+            if data != STALE:
+                out[f] = data
     return out
+
+
+def _no_prompt(*a, **k):
+    raise EOFError("evo asked for confirmation: " + (str(a[0]) if a else ""))
 
 
 @contextlib.contextmanager
 def in_dir(d):
+    import builtins
     old = os.getcwd()
+    old_input = builtins.input
+    builtins.input = _no_prompt          # a prompt must never block the check: it becomes an exception of the run
     os.chdir(d)
     try:
         with contextlib.redirect_stdout(io.StringIO()), contextlib.redirect_stderr(io.StringIO()):
             yield
     finally:
         os.chdir(old)
+        builtins.input = old_input
+
+
+def primer(case, d):
+    """L2: an earlier run() in the same process and directory — same paths with other content, other options — must leave no trace"""
+    import copy
+    import logging
+    from evo import main_traj, main_traj_parser
+    pc = copy.deepcopy(case)
+    for t in pc["trajs"] + ([pc["ref"]] if pc["ref"] else []):
+        t["pos"] = [[x + 1.0 for x in p] for p in t["pos"]][::-1]
+        t["quat"] = t["quat"][::-1]
+    pc.update(downsample=3, motion_filter=None, merge=False, t_offset=1.5 if pc["sub"] != "kitti" else 0.0, sync=False, align=False,
+              correct_scale=False, align_origin=False, n_to_align=-1, plane="xz", invert=not case["invert"], propagate=False,
+              save_tum=pc["sub"] != "kitti", save_kitti=True)
+    pc["drive"] = dict(drive_of(case), primer=False, stale=False, dup=False)
+    use(pc)
+    setup_dir(pc, d)
+    with in_dir(d):
+        try:
+            main_traj.run(main_traj_parser.parser().parse_args(argv_of(pc, d)))
+        except (SystemExit, Exception):  # noqa: BLE001
+            pass
+        finally:
+            logging.disable(logging.NOTSET)
+    for f in os.listdir(d):
+        if f.endswith(".tum") or f.endswith(".kitti"):
+            os.remove(os.path.join(d, f))
+    use(case)
+    setup_dir(case, d)
 
 
 # ----------------------------------------------------------------------------- evo_traj itself
 def run_evo(case, d):
     import logging
     from evo import main_traj, main_traj_parser
-    res = {"argv": argv_of(case)}
+    res = {"argv": argv_of(case, d)}
+    if drive_of(case).get("primer"):
+        primer(case, d)
     with in_dir(d):
         try:
             args = main_traj_parser.parser().parse_args(res["argv"])
@@ -510,7 +619,7 @@ def interpret(case, d, plan, refplan, rec=None):
     res = {}
     with in_dir(d):
         try:
-            trajs = {traj_name(sub, k): reader(traj_name(sub, k)) for k in range(len(case["trajs"]))}
+            trajs = {traj_name(sub, k): reader(traj_name(sub, k)) for k in file_order(case)}
             ref = reader(ref_name(sub)) if case["ref"] is not None else None
             ref_tmp = {name: ref for name in trajs}
             # stages in rank order; association / alignment / origin alignment (ranks 4-6) form one stage that run()
@@ -712,7 +821,7 @@ def judge_run(ctx, case, evo, interp, out):
         return
     ts, ref = parse_run(out)
     sub = case["sub"]
-    names = ["merged_trajectory"] if case["merge"] else [os.path.splitext(traj_name(sub, k))[0] for k in range(len(case["trajs"]))]
+    names = ["merged_trajectory"] if case["merge"] else [os.path.splitext(traj_name(sub, k))[0] for k in file_order(case)]
     model = dict(zip(names, ts))
     if ref is not None:
         model[os.path.splitext(ref_name(sub))[0]] = ref
@@ -948,7 +1057,7 @@ def oracle_pipeline(case):
     sub = case["sub"]
     EXACT[0] = case.get("kind") == "grid"
     both_alts = []
-    trajs = {os.path.splitext(traj_name(sub, k))[0]: o_load(t, sub) for k, t in enumerate(case["trajs"])}
+    trajs = {os.path.splitext(traj_name(sub, k))[0]: o_load(case["trajs"][k], sub) for k in file_order(case)}
     ref = o_load(case["ref"], sub) if case["ref"] is not None else None
     if case["align"] and case["align_origin"]:
         return ("die", "parser")
@@ -1051,6 +1160,9 @@ def compare_export(case, evo, want):
             w = {"t": np.array([w["t"][i] for i in ow]), "T": [w["T"][i] for i in ow], "n": w["n"]}
         P = np.array([M[:3, 3] for M in w["T"]])
         G = np.array(got["p"])
+        vals = [x for k2 in ("t", "p", "q", "R") if got.get(k2) is not None for x in np.asarray(got[k2], dtype=float).ravel()]
+        if not np.isfinite(vals).all():
+            return ("exported-values-finite", f"{fname}: non-finite number in the export")
         tol = 0.0 if no_processing else 1e-6 * (1 + np.abs(P).max())
         if np.abs(G - P).max() > tol:
             k = int(np.argmax(np.abs(G - P).max(axis=1)))
@@ -1117,6 +1229,9 @@ def judge(ctx, case, evo, interp, aux, outs):
         want_status = {"parser": "exit2", "tum_without_stamps": "raised FileInterfaceException"}.get(reason, "exit1")
         # the TUM writer raises at the very end: an earlier step may raise first (e.g. alignment of unequal lengths)
         status_ok = evo["status"].startswith("raised") if reason == "tum_without_stamps" else evo["status"] == want_status
+        if reason != "parser" and (case["downsample"] or case["motion_filter"] is not None) and \
+                evo["status"] in ("raised FilterException", "raised TrajectoryException"):
+            status_ok = True      # down-sampling / filtering run before run() reaches the die() and may fail first (1-pose input)
         if not status_ok or evo["files"]:
             ctx.mismatch(case, f"model: evo_traj stops ({reason}) without exporting", evo["status"] + " " + str(sorted(evo["files"])), plan_line)
         ctx.count("branch", "die:" + reason)
@@ -1163,6 +1278,11 @@ def judge(ctx, case, evo, interp, aux, outs):
     # ---- bookkeeping
     ctx.count("dist", "sub:" + case["sub"])
     ctx.count("dist", f"ntraj:{len(case['trajs'])}")
+    for k2, v in drive_of(case).items():
+        if v and k2 != "names":
+            ctx.count("dist", f"drive:{k2}" + (":" + v if isinstance(v, str) else ""))
+    if drive_of(case).get("names"):
+        ctx.count("dist", "drive:adversarial-names")
     if case.get("ties"):
         ctx.count("dist", "merge-shared-stamps:" + case["ties"])
     ctx.count("dist", "ref:" + ("none" if case["ref"] is None else "listed" if case["ref_listed"] else "file"))
@@ -1185,6 +1305,7 @@ def evaluate(ctx, cases):
     work = []
     lines = []
     for case in cases:
+        use(case)
         d = setup_dir(case)
         evo = run_evo(case, d)
         aux = aux_of(case, d)
@@ -1194,6 +1315,7 @@ def evaluate(ctx, cases):
     outs = core.run_driver(lines)
     runs = []
     for case, d, evo, aux, a, k in work:
+        use(case)
         o = outs[a:a + k]
         interp = {"status": "-", "files": {}}
         try:
@@ -1205,12 +1327,21 @@ def evaluate(ctx, cases):
                 interp = interpret(case, d, plan, refplan, rec)
                 if rec is not None and "inputs" in rec:
                     runs.append((case, evo, interp, run_line(case, d, rec)))
-            judge(ctx, case, evo, interp, aux, o)
+            try:
+                judge(ctx, case, evo, interp, aux, o)
+            except core.ToolError:
+                raise
+            except Exception as e:  # noqa: BLE001 -- unreadable / exceptional output of evo is an oracle failure, not a harness crash
+                ctx.fail(case, "evo-output-readable", f"{type(e).__name__}: {e}"[:300], {"sub": case["sub"]})
         finally:
             shutil.rmtree(d, ignore_errors=True)
     if runs:
         for (case, evo, interp, _), out in zip(runs, core.run_driver([r[3] for r in runs])):
-            judge_run(ctx, case, evo, interp, out)
+            use(case)
+            try:
+                judge_run(ctx, case, evo, interp, out)
+            except Exception as e:  # noqa: BLE001
+                ctx.fail(case, "evo-output-readable", f"{type(e).__name__}: {e}"[:300], {"sub": case["sub"]})
 
 
 def shrink(case):
